@@ -90,10 +90,54 @@ def hostile_reply(rng) -> t.Tuple[bytes, str]:
     return bytes(base), mode
 
 
+def run_seq(case) -> dict:
+    """["seq", flavour, seed, [status1, status2, ...]]: several lookups against the same server in one process; the mapper's
+    answer changes between them (endpoint moved, service unregistered).  Each lookup is judged on its own reply."""
+    import dpapi_ng._client as dclient
+
+    _, fl, seed, statuses = case
+    rng = random.Random(seed)
+    world = W.World(seed)
+    sd = dtyp.target_sd(offline.SID_A)
+    dc = refdc.RefDC(world, [], host=DC)
+    world.routes.pop((DC, dc.gkdi_port), None)
+    viol = None
+    probes = {"kind_seq": 1}
+    with world.installed():
+        for k, status in enumerate(statuses):
+            towers, expect = wellformed_towers(rng)
+            if expect is None:
+                towers = [rpce.std_tower(rpce.ISD_KEY_IF, rpce.NDR20, 20000 + rng.randrange(40000))] + towers
+                expect = rpce.tower_tcp_port(towers[0])
+            dc.epm_knobs["raw_reply"] = rpce.ndr64_ept_map_response(towers, status)
+            n0 = len(world.connect_attempts)
+            if fl == "sync":
+                out = drive.classify(lambda: dclient._sync_get_key(DC, sd, None, 1, 2, 3, auth_protocol="negotiate"))
+            else:
+                out = drive.classify(lambda: drive.run_async(world, lambda: dclient._async_get_key(DC, sd, None, 1, 2, 3), random.Random(seed + k)))
+            att = world.connect_attempts[n0:]
+            dialled = [a[1] for a in att if a[1] != 135]
+            asked = [a for a in att if a[1] == 135]
+            detail = f"lookup #{k + 1} of statuses {[hex(s) for s in statuses]}: mapper said status=0x{status:08X} port={expect}, client asked the mapper {len(asked)}x and dialled {dialled}; outcome {out.brief()}"
+            if status != 0:
+                probes["seq_error_after_success"] = int(k > 0)
+                if dialled or out.kind != "raise":
+                    viol = common.violation("C18", "port", fl, "dialled-despite-error", "", "sequence", detail)
+                    break
+            else:
+                if dialled != [expect]:
+                    viol = common.violation("C18", "port", fl, "wrong-port", "", "sequence", detail)
+                    break
+    return {"viol": viol, "digest": world.digest(), "key": common.key_hash(case), "fired": {"script": len(statuses)}, "probes": probes,
+            "vtime_ns": world.stats.get("vtime_ns", 0)}
+
+
 def run(case) -> dict:
     """["wf", flavour, seed, status] | ["hostile", flavour, seed] | ["trunc", flavour, seed, k]"""
     import dpapi_ng._client as dclient
 
+    if case[0] == "seq":
+        return run_seq(case)
     kind, fl, seed = case[0], case[1], case[2]
     rng = random.Random(seed)
     world = W.World(seed)
@@ -171,7 +215,7 @@ class C18(common.Check):
                   "endpoint mapper": "Byzantine scripted peer / reference encoder (ref.rpce)", "network seam": "simulated: the dialled port is an observation",
                   "budgets": "sys.settrace line counter (dpapi_ng frames) and tracemalloc peak"}
     assumptions = ["budgets are affine in the reply length with constants > 20x the maximum observed on well-formed replies"]
-    required_fired = ("port_expected", "must_raise", "kind_hostile", "kind_trunc", "hostile_actual", "hostile_floor-count", "hostile_tower-len")
+    required_fired = ("port_expected", "must_raise", "kind_hostile", "kind_trunc", "kind_seq", "seq_error_after_success", "hostile_actual", "hostile_floor-count", "hostile_tower-len")
 
     def cases(self, tier, seed):
         rng = prng.stream(seed, "C18")
@@ -182,6 +226,8 @@ class C18(common.Check):
             out.append(["wf", "sync" if i % 2 else "async", rng.getrandbits(30), st])
         for i in range(n):
             out.append(["hostile", "sync" if i % 2 else "async", rng.getrandbits(30)])
+        for i in range(300 if tier == "quick" else 10000):
+            out.append(["seq", "sync" if i % 2 else "async", rng.getrandbits(30), [rng.choice((0, 0, 0x16C9A0D6, 1)) for _ in range(rng.randint(2, 4))]])
         for s in range(6 if tier == "quick" else 60):
             sd_ = rng.getrandbits(30)
             for k in range(0, 600):
